@@ -1,6 +1,158 @@
-(** C18 – placeholder while the proofs are being written. *)
-From Coq Require Import List.
-From RimeV Require Import Cfg.Tree Cfg.Path.
-Theorem C18_traverse_nil : forall t, traverse t nil = t.
-Proof. reflexivity. Qed.
-Print Assumptions C18_traverse_nil.
+(** C18 – config trees survive save and load, and getters read back what setters wrote.
+    Property theorems only; each closed by [exact] of a lemma proved in coq/Cfg/*Proofs.v. *)
+From Coq Require Import List NArith ZArith Bool.
+From Coq.Strings Require Import Byte.
+From RimeV Require Import Base.Bytes Cfg.Tree Cfg.Path Cfg.Typed Cfg.Api Cfg.Yaml
+  Cfg.PathProofs Cfg.TypedProofs Cfg.FormsProofs Cfg.YamlProofs Cfg.TreeProofs.
+Import ListNotations.
+
+(** ** getters read back what setters wrote *)
+
+(** On the resolved steps of the written path (map key / list index as
+    [ResolveListIndex] computed them during the write) the written item is read
+    back – for every tree, every key list, every form of list reference, with no
+    side condition at all. *)
+Theorem C18_get_after_set_resolved :
+  forall t keys v, traverse_r (write_at t keys v) (map step_of (resolve_w t keys)) = v.
+Proof. exact write_then_read_resolved. Qed.
+Print Assumptions C18_get_after_set_resolved.
+
+(** What each textual form resolves to. *)
+Theorem C18_key_forms_meaning : forall l,
+  (forall n, (n < two32)%N -> resolve_index l (key_text (FIdx n)) = N.to_nat n /\ will_insert (key_text (FIdx n)) = false) /\
+  (forall n, (n < two32)%N -> resolve_index l (key_text (FBefore n)) = N.to_nat n /\ will_insert (key_text (FBefore n)) = true) /\
+  (forall n, (n + 1 < two32)%N -> resolve_index l (key_text (FAfter n)) = S (N.to_nat n) /\ will_insert (key_text (FAfter n)) = true) /\
+  ((N.of_nat (length l) < two32)%N -> resolve_index l (key_text FNext) = length l /\ will_insert (key_text FNext) = false) /\
+  ((N.of_nat (length l) < two32)%N -> resolve_index l (key_text FLast) = length l - 1 /\ will_insert (key_text FLast) = false).
+Proof. exact form_index. Qed.
+Print Assumptions C18_key_forms_meaning.
+
+(** API level, path strings: after [config_set_string/int/bool] succeeded at a
+    path made of map keys, "@N", "@next", "@last", "@before N", "@after N", the
+    matching getter at the same path (for "@next": at "@last") returns the value. *)
+Theorem C18_get_after_set_string : forall t fs s t',
+  fs <> [] -> Forall wf_form fs -> sizes_ok t fs ->
+  cfg_set_string t (path_text fs) s = Some t' -> cfg_get_string t' (path_readback fs) = Some s.
+Proof. exact get_after_set_string. Qed.
+Print Assumptions C18_get_after_set_string.
+
+Theorem C18_get_after_set_int : forall t fs z t',
+  fs <> [] -> Forall wf_form fs -> sizes_ok t fs -> (int_min <= z <= int_max)%Z ->
+  cfg_set_int t (path_text fs) z = Some t' -> cfg_get_int t' (path_readback fs) = Some z.
+Proof. exact get_after_set_int. Qed.
+Print Assumptions C18_get_after_set_int.
+
+Theorem C18_get_after_set_bool : forall t fs b t',
+  fs <> [] -> Forall wf_form fs -> sizes_ok t fs ->
+  cfg_set_bool t (path_text fs) b = Some t' -> cfg_get_bool t' (path_readback fs) = Some b.
+Proof. exact get_after_set_bool. Qed.
+Print Assumptions C18_get_after_set_bool.
+
+(** Non-vacuity: a write through a map key, "@2", "@before 0" and a map key on
+    the empty config succeeds, creates the containers, and reads back; "@next"
+    is read back at "@last" (and not at "@next"). *)
+Theorem C18_get_after_set_example :
+  (Forall wf_form ex_path /\ sizes_ok Null ex_path) /\
+  (exists t', cfg_set_int Null (path_text ex_path) (-7)%Z = Some t' /\
+              cfg_get_int t' (path_readback ex_path) = Some (-7)%Z /\
+              t' = Map [(["m"]%byte, Lst [Null; Null; Lst [Map [(["k"]%byte, Scalar ["-"; "7"]%byte)]]])]) /\
+  (exists t', cfg_set_string (Lst [Scalar ["a"]%byte]) (path_text [FNext]) ["b"]%byte = Some t' /\
+              cfg_get_string t' (path_readback [FNext]) = Some ["b"]%byte /\ cfg_get_string t' (path_text [FNext]) = None).
+Proof. exact (conj ex_forms_ok (conj ex_set_then_get ex_next_then_last)). Qed.
+Print Assumptions C18_get_after_set_example.
+
+(** ** values of other types convert as documented or fail cleanly *)
+Theorem C18_conversions_after_set : forall t fs t',
+  fs <> [] -> Forall wf_form fs -> sizes_ok t fs ->
+  (forall z, cfg_set_int t (path_text fs) z = Some t' ->
+     cfg_get_string t' (path_readback fs) = Some (set_int z) /\ cfg_get_bool t' (path_readback fs) = None) /\
+  (forall b, cfg_set_bool t (path_text fs) b = Some t' ->
+     cfg_get_string t' (path_readback fs) = Some (set_bool b) /\ cfg_get_int t' (path_readback fs) = None).
+Proof. exact get_other_type_after_set. Qed.
+Print Assumptions C18_conversions_after_set.
+
+Theorem C18_typed_text_roundtrip :
+  (forall b, get_bool (set_bool b) = Some b) /\
+  (forall z, (int_min <= z <= int_max)%Z -> get_int (set_int z) = Some z) /\
+  get_int ["0"; "x"; "1"; "F"]%byte = Some 31%Z /\ get_int [" "; "4"; "2"; "a"; "b"; "c"]%byte = Some 42%Z /\
+  get_int ["2"; "1"; "4"; "7"; "4"; "8"; "3"; "6"; "4"; "8"]%byte = None /\ get_bool ["T"; "r"; "U"; "e"]%byte = Some true.
+Proof.
+  exact (conj get_set_bool (conj get_set_int (conj get_int_hex_text (conj get_int_trailing_junk
+           (conj get_int_out_of_range get_bool_case_insensitive))))).
+Qed.
+Print Assumptions C18_typed_text_roundtrip.
+
+(** A write that would have to pass through a scalar, or through a container of
+    the other kind, is refused ([config_set] = [None]: the API call returns
+    False and the tree is the old one); typed getters on anything but a scalar
+    report failure. *)
+Theorem C18_wrong_kind_fails_cleanly :
+  (forall t pre s k ks v, (forall x, In x pre -> x <> []) -> traverse t pre = Scalar s -> k <> [] ->
+     write_ok t (pre ++ k :: ks) = false /\
+     (path_keys (join (pre ++ k :: ks)) = pre ++ k :: ks -> config_set t (join (pre ++ k :: ks)) v = None)) /\
+  (forall l k ks, is_list_ref k = false -> k <> [] -> write_ok (Lst l) (k :: ks) = false) /\
+  (forall m k ks, is_list_ref k = true -> write_ok (Map m) (k :: ks) = false) /\
+  (forall t p, (forall s, config_get t p <> Scalar s) ->
+     cfg_get_string t p = None /\ cfg_get_int t p = None /\ cfg_get_bool t p = None).
+Proof. exact wrong_kind_fails_cleanly. Qed.
+Print Assumptions C18_wrong_kind_fails_cleanly.
+
+(** ** unrelated paths are unchanged *)
+(** Any resolved read path that leaves the written path at some step reads the
+    same node afterwards; behind an "@before/@after" insertion point the node
+    is found one index higher ([unrelated] computes where). *)
+Theorem C18_set_frame : forall keys t v qs qs',
+  (forall k, In k keys -> k <> []) -> write_ok t keys = true ->
+  unrelated (resolve_w t keys) qs = Some qs' ->
+  traverse_r (write_at t keys v) qs' = traverse_r t qs.
+Proof. exact write_frame. Qed.
+Print Assumptions C18_set_frame.
+
+Theorem C18_set_frame_other_key : forall t k ks v k' qs,
+  k <> [] -> is_list_ref k = false -> is_list_ref k' = false -> k' <> k -> write_ok t (k :: ks) = true ->
+  traverse (write_at t (k :: ks) v) (k' :: qs) = traverse t (k' :: qs).
+Proof. exact write_frame_other_key. Qed.
+Print Assumptions C18_set_frame_other_key.
+
+(** ** the scalar codec *)
+(** Every scalar of the property's domain (UTF-8 of Unicode scalar values other
+    than noncharacters; with a line break only if there is no CR and the text
+    ends in exactly one LF) is read back from the bytes [EmitScalar] + yaml-cpp
+    write for it, in block context (literal indentation [li], scanner's least
+    indentation [minlit] <= [li]) and in flow context. *)
+Theorem C18_scalar_roundtrip : forall s ctx,
+  wf_scalar s -> wf_ctx ctx -> load_scalar ctx (emit_scalar ctx s) = Some (s, []).
+Proof. exact scalar_roundtrip. Qed.
+Print Assumptions C18_scalar_roundtrip.
+
+Theorem C18_scalar_domain_inhabited :
+  wf_scalar [] /\ wf_scalar [32; 97; 10]%N /\ wf_scalar [97; 10; 98; 10]%N /\ wf_scalar [110; 117; 108; 108]%N /\
+  wf_scalar [228; 184; 173; 10]%N /\ wf_scalar [45; 32; 34; 92; 1]%N.
+Proof. exact wf_scalar_examples. Qed.
+Print Assumptions C18_scalar_domain_inhabited.
+
+(** The finding: with [EmitScalar] as it was before commit "fix: quote config
+    strings that the YAML literal or plain style cannot reload" the statement is
+    false – " a\n" (in the domain) is read back as "a\n". *)
+Theorem C18_scalar_roundtrip_before_fix_refuted :
+  exists s ctx, wf_scalar s /\ wf_ctx ctx /\ load_scalar ctx (emit_scalar_v0 ctx s) <> Some (s, []).
+Proof. exact scalar_roundtrip_v0_refuted. Qed.
+Print Assumptions C18_scalar_roundtrip_before_fix_refuted.
+
+(** Known finding kept outside [wf_scalar]: a noncharacter (here U+FFFE, valid
+    UTF-8) is replaced by U+FFFD by yaml-cpp's emitter. *)
+Theorem C18_scalar_roundtrip_noncharacter_refuted :
+  exists s ctx, wf_ctx ctx /\ s = encode 65534 /\ load_scalar ctx (emit_scalar ctx s) <> Some (s, []).
+Proof. exact scalar_roundtrip_noncharacter_refuted. Qed.
+Print Assumptions C18_scalar_roundtrip_noncharacter_refuted.
+
+(** ** whole trees *)
+(** The full statement [tree_roundtrip_full] (Cfg/TreeProofs.v):
+      forall t, wf_item t = true -> scalars_wf t -> load_octs (emit_octs t) = Some (prune t).
+    Proved: its base layer, a tree that is one scalar.  Missing: the induction
+    over block and flow collections (layout written by the prep_* functions read
+    back by block_node/flow_node); covered by the correspondence check only. *)
+Theorem C18_tree_roundtrip_partial : forall s,
+  wf_scalar (nums s) -> load_octs (emit_octs (Scalar s)) = Some (prune (Scalar s)).
+Proof. exact tree_roundtrip_scalar. Qed.
+Print Assumptions C18_tree_roundtrip_partial.
